@@ -22,6 +22,7 @@ import (
 	"encoding/json"
 	"errors"
 	"fmt"
+	"sort"
 	"strconv"
 	"strings"
 	"time"
@@ -265,6 +266,10 @@ func parseSort(value interface{}, qid uint64) (*SortRequest, error) {
 			log.Errorf("qid=%d, Sort request has more than one requirement", qid)
 			return nil, errors.New("sort request has more than one requirement")
 		}
+		if len(t) == 0 {
+			log.Errorf("qid=%d, Sort request is an empty list", qid)
+			return nil, errors.New("sort request is an empty list")
+		}
 		return processSortRequirements(t[0], qid)
 	}
 
@@ -322,7 +327,7 @@ func parseAggregations(json_body interface{}, qid uint64) (*QueryAggregators, er
 		}
 
 		var aggName string
-		for key := range t {
+		for _, key := range sortedAggKeys(t) {
 			aggName = key
 		}
 		if queryAgg.GroupByRequest != nil {
@@ -349,11 +354,33 @@ func parseAggregations(json_body interface{}, qid uint64) (*QueryAggregators, er
 	return nil, nil
 }
 
+// sortedAggKeys returns the keys of an aggregation object in a fixed order: sorted by name,
+// with the sub-aggregation keys last so that a bucket aggregation is always processed before
+// the aggregations nested in it. Go map iteration order would otherwise make the resulting
+// group-by column order (and which of several sibling aggregations wins) vary per request.
+func sortedAggKeys(m map[string]interface{}) []string {
+	keys := make([]string, 0, len(m))
+	for k := range m {
+		if k != "aggs" && k != "aggregations" {
+			keys = append(keys, k)
+		}
+	}
+	sort.Strings(keys)
+	for _, k := range []string{"aggregations", "aggs"} {
+		if _, ok := m[k]; ok {
+			keys = append(keys, k)
+		}
+	}
+	return keys
+}
+
 func processAggregation(params map[string]interface{}, qid uint64, aggNode *QueryAggregators) error {
-	for key, value := range params {
+	for _, key := range sortedAggKeys(params) {
+		value := params[key]
 		switch aggInfo := value.(type) {
 		case map[string]interface{}:
-			for aggType, aggField := range aggInfo {
+			for _, aggType := range sortedAggKeys(aggInfo) {
+				aggField := aggInfo[aggType]
 				if isTypeStatisticFunction(aggType) {
 					err := processStatisticAggregation(aggType, aggField, key, aggNode)
 					if err != nil {
@@ -943,6 +970,12 @@ func parseNestedDictArray(json_body interface{}, qid uint64, path string) (strin
 	var err error
 	switch t := json_body.(type) {
 	case map[string]interface{}:
+		// string members (the path) first: the other members are interpreted relative to it
+		for _, nestedValue := range t {
+			if strVal, ok := nestedValue.(string); ok {
+				path = strVal
+			}
+		}
 		for _, nestedValue := range t {
 			switch nestedValue := nestedValue.(type) {
 			case map[string]interface{}:
@@ -1191,6 +1224,11 @@ func parseLeafNodes(key, value interface{}, boolNode *ASTNode, qid uint64, isJae
 
 		switch t := value.(type) {
 		case map[string]interface{}:
+			// "path" must be known before "query" is looked at; the members of the JSON object
+			// arrive in map order, i.e. in no particular order.
+			if p, ok := t["path"].(string); ok {
+				path = p
+			}
 			for nestedKey, nestedValue := range t {
 				switch nestedValue := nestedValue.(type) {
 				case string:
@@ -1506,6 +1544,10 @@ func convertAndParseQuerystring(value interface{}, qid uint64) (*ASTNode, []*Fil
 		}
 		return boolNode, nil, nil
 	} else {
+		if currCondition == nil {
+			// empty (or blank) query string: no term was produced
+			return nil, nil, fmt.Errorf("qid=%d, convertAndParseQuerystring: empty query string", qid)
+		}
 		return nil, currCondition.FilterCriteria, nil
 
 	}
@@ -1809,6 +1851,9 @@ func parseMatchPhrase(json_body interface{}, qid uint64) (*ASTNode, error) {
 		err = fmt.Errorf("parseMatch: Invalid Match_phrase query, unexpected json body %v", json_body)
 		return nil, err
 	}
+	if colValue == nil {
+		return nil, fmt.Errorf("qid=%d parseMatch: Invalid Match_phrase query, no field given", qid)
+	}
 	criteria := createMatchPhraseFilterCriteria(colName, colValue, opr, qid)
 	rootNode.AndFilterCondition = &Condition{FilterCriteria: []*FilterCriteria{criteria}}
 	return rootNode, err
@@ -1841,6 +1886,9 @@ func parseMatchPhrase_nested(json_body interface{}, qid uint64) ([]*FilterCriter
 	default:
 		err = fmt.Errorf("parseMatch: Invalid Match_phrase query, unexpected json body %v", json_body)
 		return nil, err
+	}
+	if colValue == nil {
+		return nil, fmt.Errorf("qid=%d parseMatch: Invalid Match_phrase query, no field given", qid)
 	}
 	criteria := createMatchPhraseFilterCriteria(colName, colValue, opr, qid)
 	andFilterCondition = append(andFilterCondition, criteria)
@@ -2237,8 +2285,12 @@ func createMatchFilterCriteria(k, v interface{}, opr LogicalOperator, qid uint64
 }
 
 func createMatchPhraseFilterCriteria(k, v interface{}, opr LogicalOperator, qid uint64) *FilterCriteria {
-	//match_phrase value will always be string
-	var rtInput = strings.TrimSpace(v.(string))
+	//match_phrase value is expected to be a string; anything else is matched by its text
+	vStr, ok := v.(string)
+	if !ok {
+		vStr = fmt.Sprintf("%v", v)
+	}
+	var rtInput = strings.TrimSpace(vStr)
 	var matchWords = make([][]byte, 0)
 	for _, word := range strings.Split(rtInput, " ") {
 		matchWords = append(matchWords, [][]byte{[]byte(word)}...)
@@ -2256,7 +2308,12 @@ func createMatchPhraseFilterCriteria(k, v interface{}, opr LogicalOperator, qid 
 func createTermsFilterCriteria(k interface{}, val []interface{}, opr LogicalOperator) *FilterCriteria {
 	var matchWords = make([][]byte, 0)
 	for _, v := range val {
-		matchWords = append(matchWords, [][]byte{[]byte(v.(string))}...)
+		vStr, ok := v.(string)
+		if !ok {
+			// numbers (json.Number), booleans and null are matched by their text
+			vStr = fmt.Sprintf("%v", v)
+		}
+		matchWords = append(matchWords, []byte(vStr))
 	}
 
 	criteria := FilterCriteria{MatchFilter: &MatchFilter{
@@ -2305,9 +2362,20 @@ func parseMultiMatch_nested(json_body interface{}, qid uint64) (*Condition, erro
 	case map[string]interface{}:
 		for nestedKey, nestedValue := range t {
 			if nestedKey == "query" {
-				colValue = nestedValue.(string)
+				switch qv := nestedValue.(type) {
+				case string:
+					colValue = qv
+				case json.Number:
+					colValue = string(qv)
+				default:
+					return nil, errors.New("parseMultiMatch: query of multi_match is not a string")
+				}
 			} else if nestedKey == "type" {
-				matchType = nestedValue.(string)
+				typeStr, ok := nestedValue.(string)
+				if !ok {
+					return nil, errors.New("parseMultiMatch: type of multi_match is not a string")
+				}
+				matchType = typeStr
 			} else if nestedKey == "fields" {
 				switch nvaltype := nestedValue.(type) {
 				case []interface{}:
